@@ -103,6 +103,7 @@ func (s *Sim) setupClients() {
 		}
 		s.retry.OnError = func(err error) {
 			s.log(Rec{Kind: "onerror", Err: err.Error(), Cls: classify(err)})
+			s.yield("app.onError") // a slow application callback (runs on the task goroutine)
 		}
 	}
 	if cfg.Client == "reconnect" {
@@ -158,7 +159,7 @@ func (s *Sim) anyConnecting() bool {
 		c.mu.Lock()
 		// until a state callback (Active/Closed/Disconnected) shows that Connect is
 		// over: the transport may be dead while Connect still holds its lock
-		x := c.connecting
+		x := c.connecting || c.activeCB
 		c.mu.Unlock()
 		if x {
 			return true
@@ -285,7 +286,7 @@ func (s *Sim) baseConnecting(cli int) bool {
 	}
 	c.mu.Lock()
 	defer c.mu.Unlock()
-	return c.connecting
+	return c.connecting || c.activeCB
 }
 
 func (s *Sim) connOf(b *mqtt.BaseClient) int {
@@ -411,7 +412,7 @@ func (s *Sim) execOp(i int) {
 	case "resubscribe":
 		s.retry.Resubscribe(ctx)
 	case "publish":
-		m := &mqtt.Message{Topic: op.Topic, QoS: mqtt.QoS(op.QoS), Retain: op.Retain, Payload: s.payload(op), ID: op.PresetID}
+		m := &mqtt.Message{Topic: op.Topic, QoS: mqtt.QoS(op.QoS), Retain: op.Retain, Payload: s.payload(op), ID: op.PresetID, Dup: op.DupIn}
 		err = cli.Publish(ctx, m)
 		if base != nil {
 			// the retrying client keeps the message and fills it in later, on its
